@@ -1,4 +1,85 @@
 (** C07 — property theorems (statements only; proofs by [exact]). *)
-From Coq Require Import ZArith QArith Qround.
-From RlibV Require Import C11.Model C07.Model.
+From Coq Require Import ZArith QArith Qround List.
+From RlibV Require Import C11.Model C07.Model C07.Spec C07.Trace C07.Corr C07.Scope C07.Proofs C07.ProofsFits C07.ProofsCorr.
 Open Scope Z_scope.
+
+(** Rational::new(a, b), b <> 0 of either sign: lowest terms, positive denominator, value a/b *)
+Theorem c07_new_canonical : forall a b : Z, b <> 0 -> Z.abs b < 2 ^ 130 -> exists r, new a b = Some r /\ canonical r /\ (to_Q r == frac a b)%Q.
+Proof. exact new_canonical. Qed.
+
+(** new_int *)
+Theorem c07_new_int : forall a : Z, canonical (new_int a) /\ (to_Q (new_int a) == inject_Z a)%Q.
+Proof. exact new_int_spec. Qed.
+
+(** + is exact and its result canonical (operands need a positive denominator, not lowest terms) *)
+Theorem c07_add_exact : forall x y : rat, 0 < rb x -> 0 < rb y -> small x -> small y -> exists r, add x y = Some r /\ canonical r /\ (to_Q r == to_Q x + to_Q y)%Q.
+Proof. exact add_exact. Qed.
+
+(** - *)
+Theorem c07_sub_exact : forall x y : rat, 0 < rb x -> 0 < rb y -> small x -> small y -> exists r, sub x y = Some r /\ canonical r /\ (to_Q r == to_Q x - to_Q y)%Q.
+Proof. exact sub_exact. Qed.
+
+(** * *)
+Theorem c07_mul_exact : forall x y : rat, 0 < rb x -> 0 < rb y -> small x -> small y -> exists r, mul x y = Some r /\ canonical r /\ (to_Q r == to_Q x * to_Q y)%Q.
+Proof. exact mul_exact. Qed.
+
+(** / by a non-zero divisor (of either sign: the sign moves to the numerator) *)
+Theorem c07_div_exact : forall x y : rat, 0 < rb x -> 0 < rb y -> small x -> small y -> ra y <> 0 -> exists r, div x y = Some r /\ canonical r /\ (to_Q r == to_Q x / to_Q y)%Q.
+Proof. exact div_exact. Qed.
+
+(** Neg does not renormalise and does not need to *)
+Theorem c07_neg : forall x : rat, canonical x -> canonical (neg x) /\ (to_Q (neg x) == - to_Q x)%Q.
+Proof. exact neg_exact. Qed.
+
+(** canonical forms are unique: numeric equality implies structural equality *)
+Theorem c07_canonical_eq : forall x y : rat, canonical x -> canonical y -> (to_Q x == to_Q y)%Q -> x = y.
+Proof. exact canonical_eq. Qed.
+
+(** derived == (field-wise, what derived Hash hashes) coincides with numeric equality *)
+Theorem c07_eq_numeric : forall x y : rat, canonical x -> canonical y -> (eqb x y = true <-> (to_Q x == to_Q y)%Q).
+Proof. exact eqb_numeric. Qed.
+
+(** Ord::cmp is the order of Q (hence total, antisymmetric, transitive) *)
+Theorem c07_cmp : forall x y : rat, 0 < rb x -> 0 < rb y -> small x -> small y -> cmp x y = Some (to_Q x ?= to_Q y)%Q.
+Proof. exact cmp_spec. Qed.
+
+(** cmp is consistent with == *)
+Theorem c07_cmp_eq : forall x y : rat, canonical x -> canonical y -> small x -> small y -> (cmp x y = Some Eq <-> x = y).
+Proof. exact cmp_eq_iff. Qed.
+
+(** floor: greatest integer <= x, both signs *)
+Theorem c07_floor : forall x : rat, 0 < rb x -> floor x = Some (Rat (Qfloor (to_Q x)) 1).
+Proof. exact floor_spec. Qed.
+
+(** ceil: least integer >= x, both signs *)
+Theorem c07_ceil : forall x : rat, 0 < rb x -> ceil x = Some (Rat (Qceiling (to_Q x)) 1).
+Proof. exact ceil_spec. Qed.
+
+(** the instrumented variants (C07/Trace.v: same code plus the list of every intermediate integer) return the model's results *)
+Theorem c07_trace_same : forall (x y : rat) (a b : Z), fst (new_t a b) = new a b /\ fst (add_t x y) = add x y /\ fst (sub_t x y) = sub x y /\ fst (mul_t x y) = mul x y /\ fst (div_t x y) = div x y /\ fst (neg_t x) = neg x /\ fst (cmp_t x y) = cmp x y /\ fst (floor_t x) = floor x /\ fst (ceil_t x) = ceil x.
+Proof. exact (fun x y a b => trace_same x y a b). Qed.
+
+(** the property's box: operands and constructor arguments of magnitude at most 2^30 keep every intermediate of every operator below 2^62 (no i64 overflow) *)
+Theorem c07_fits_2_30 : forall (x y : rat) (a b : Z), within (2 ^ 30) x -> within (2 ^ 30) y -> Z.abs a <= 2 ^ 30 -> Z.abs b <= 2 ^ 30 -> all_below (2 ^ 62) (snd (new_t a b)) /\ all_below (2 ^ 62) (snd (add_t x y)) /\ all_below (2 ^ 62) (snd (sub_t x y)) /\ all_below (2 ^ 62) (snd (mul_t x y)) /\ all_below (2 ^ 62) (snd (div_t x y)) /\ all_below (2 ^ 62) (snd (neg_t x)) /\ all_below (2 ^ 62) (snd (cmp_t x y)) /\ all_below (2 ^ 62) (snd (floor_t x)) /\ all_below (2 ^ 62) (snd (ceil_t x)).
+Proof. exact (fits_2_30). Qed.
+
+(** the executor's i32 box: magnitudes at most 2^14 keep everything below 2^30 *)
+Theorem c07_fits_i32_2_14 : forall (x y : rat) (a b : Z), within (2 ^ 14) x -> within (2 ^ 14) y -> Z.abs a <= 2 ^ 14 -> Z.abs b <= 2 ^ 14 -> all_below (2 ^ 30) (snd (new_t a b)) /\ all_below (2 ^ 30) (snd (add_t x y)) /\ all_below (2 ^ 30) (snd (sub_t x y)) /\ all_below (2 ^ 30) (snd (mul_t x y)) /\ all_below (2 ^ 30) (snd (div_t x y)) /\ all_below (2 ^ 30) (snd (neg_t x)) /\ all_below (2 ^ 30) (snd (cmp_t x y)) /\ all_below (2 ^ 30) (snd (floor_t x)) /\ all_below (2 ^ 30) (snd (ceil_t x)).
+Proof. exact (fits_i32_2_14). Qed.
+
+(** general form: operands bounded by M keep every intermediate at most 2*M*M *)
+Theorem c07_fits_general : forall (M : Z) (x y : rat) (a b : Z), 1 <= M -> 2 * (M * M) < 2 ^ 130 -> within M x -> within M y -> Z.abs a <= M -> Z.abs b <= M -> let le B := Forall (fun v => Z.abs v <= B) in le M (snd (new_t a b)) /\ le (2 * (M * M)) (snd (add_t x y)) /\ le (2 * (M * M)) (snd (sub_t x y)) /\ le (2 * (M * M)) (snd (mul_t x y)) /\ le (2 * (M * M)) (snd (div_t x y)) /\ le M (snd (neg_t x)) /\ le (2 * (M * M)) (snd (cmp_t x y)) /\ le (2 * M + 1) (snd (floor_t x)) /\ le (2 * M + 1) (snd (ceil_t x)).
+Proof. exact (fits_general). Qed.
+
+(** on in-scope cases (inputs below 2^32 in magnitude) an observation that agrees with the model satisfies the
+    specification: the batch lemma about the model carries the spec to the implementation by proof *)
+Theorem c07_model_implies_spec : forall c : case, in_scope c -> model_check c = true -> spec_check c = true.
+Proof. exact model_implies_spec. Qed.
+
+(** floor x is the greatest integer <= x *)
+Theorem c07_floor_greatest : forall x : rat, 0 < rb x -> exists n, floor x = Some (Rat n 1) /\ (inject_Z n <= to_Q x)%Q /\ (to_Q x < inject_Z (n + 1))%Q.
+Proof. exact floor_bounds. Qed.
+
+(** ceil x is the least integer >= x *)
+Theorem c07_ceil_least : forall x : rat, 0 < rb x -> exists n, ceil x = Some (Rat n 1) /\ (inject_Z (n - 1) < to_Q x)%Q /\ (to_Q x <= inject_Z n)%Q.
+Proof. exact ceil_bounds. Qed.
